@@ -87,10 +87,26 @@ def run(prog, rep):
                 if cycle_avoiding(body, h, bl, {b}):
                     rep.violation("C10.null", "%s :: per arm" % f.id, sp_str(t["sp"]), "an arm can be checked without the nullable-regex test")
                     continue
-                nxt = t["t"]
                 err = False
-                for g in switch_edges(body, tr, nxt):
-                    if g.variant == "Some":
+                from ..lib.cfgq import guard_cases
+                from ..lib.trace import walk as _walk
+                cand = []
+                for xb in sorted(bl):
+                    for g in switch_edges(body, tr, xb):
+                        mine = any(x[0] == "call" and len(x) > 4 and x[4] == b for x in _walk(g.cond))
+                        if not mine:
+                            continue
+                        if g.variant == "Some":
+                            cand.append(g)
+                            continue
+                        # `let nullable = regex.captures("").is_some(); if nullable { … }` and its negated / is_none forms
+                        cs = guard_cases(g)
+                        if cs and all(c is not None and ((re.search(r"Option::<T>::is_some$", strip(c)[1] or "") and v is True) or
+                                                          (re.search(r"Option::<T>::is_none$", strip(c)[1] or "") and v is False))
+                                      for c, v in cs if strip(c)[0] == "call") and all(strip(c)[0] == "call" for c, v in cs if c is not None):
+                            cand.append(g)
+                for g in cand:
+                    if True:
                         r = body.reach_from([g.dst])
                         for x in r:
                             for st in body.blocks[x]["stmts"]:
